@@ -536,3 +536,14 @@ var Array = Cello(Array,
   Instance(Resize,  Array_Resize));
 
   
+
+#ifdef CELLO_VERIF
+
+/* Read-only accessor for the verification harness (/verif). No behaviour change. */
+
+size_t Cello_Verif_Array_Slots(var self) {
+  struct Array* a = self;
+  return a->nslots;
+}
+
+#endif
